@@ -172,6 +172,13 @@ func (r *roundRobinSelector) AddNode(node *databasev1.Node) {
 	}
 	r.mu.Lock()
 	defer r.mu.Unlock()
+	// r.nodes is sorted. A node that is already present (node update, replayed
+	// discovery event, re-activation) must not be listed twice: a duplicate
+	// changes the shard-to-node assignment, co-locates replicas and survives
+	// RemoveNode, which deletes only one entry.
+	if i := sort.SearchStrings(r.nodes, node.Metadata.Name); i < len(r.nodes) && r.nodes[i] == node.Metadata.Name {
+		return
+	}
 	r.nodes = append(r.nodes, node.Metadata.Name)
 	sort.StringSlice(r.nodes).Sort()
 }
